@@ -122,6 +122,15 @@ def apply(root, m):
 def gen(root, out, max_per_file, seed=1):
     rnd = random.Random(seed)
     cands = sites(root, max_per_file, rnd)
+    # stable ids over the full candidate list; optional sharding (MUT_SHARD=i/n) and exclusion of an earlier sweep (MUT_SKIP=file.json)
+    for k, m in enumerate(cands):
+        m["id"] = "%s%04d" % (os.environ.get("MUT_PREFIX", "m"), k)
+    if os.environ.get("MUT_SKIP"):
+        seen = {(x["file"], x["line"], x["new"]) for x in json.load(open(os.environ["MUT_SKIP"]))["mutants"]} if os.environ["MUT_SKIP"].endswith("sweep.json") else set()
+        cands = [m for m in cands if (m["file"], m["line"], m["new"].strip()[:120]) not in {(a, b, c.strip()[:120]) for (a, b, c) in seen}]
+    if os.environ.get("MUT_SHARD"):
+        i, n = [int(x) for x in os.environ["MUT_SHARD"].split("/")]
+        cands = [m for k, m in enumerate(cands) if k % n == i]
     print(len(cands), "candidate mutants", flush=True)
     survivors = []
     if os.path.exists(out):
@@ -144,7 +153,6 @@ def gen(root, out, max_per_file, seed=1):
             except subprocess.TimeoutExpired:
                 status = "killed_by_tests(timeout)"
         m["status"] = status
-        m["id"] = "m%04d" % k
         print(m["id"], m["file"], m["line"], m["op"], status, flush=True)
         if status == "survives_tests":
             survivors.append(m)
